@@ -1205,6 +1205,13 @@ impl<'a> GeneratorState<'a> {
     }
 
     pub fn generate_statement(&mut self, code: &'a StatementLoc<'a>) -> Result<(), Error> {
+        if self.flags_function != self.current_function {
+            // First statement of another function: what the previous one left in the
+            // flags is not known here
+            self.flags = FlagsState::Unknown;
+            self.carry_flag_ok = false;
+            self.flags_function = self.current_function.clone();
+        }
         // Include C source code into generated asm
         // debug!("{:?}, {}, {}, {}", expr, pos, self.last_included_position, self.last_included_line_number);
         if self.insert_code {
